@@ -175,6 +175,7 @@ pub fn run(ctx: &Ctx) -> Report {
         "range_edge_ok",
         "range_edge_err",
         "i64_extreme_err",
+        "cycles_of_400_years_probed",
     ];
     if let Err(e) = cal::self_test() {
         rep.inconclusive.push(format!("model self-test failed: {}", e));
@@ -253,20 +254,45 @@ pub fn run(ctx: &Ctx) -> Report {
         l.op_n("from_timespec", cnt);
     });
 
-    if !ctx.quick() {
-        // wl 6: every 400-year cycle whose years fit in i32, 14 probe days each (days relative to Mar 1 of year 400k)
+    // wl 6: 400-year cycles over the whole i32 year range, 14 probe days each (days relative to Mar 1 of year 400k),
+    // first and last second of each: thorough = every cycle; quick = the 257 cycles around year 2000 (years
+    // -49200..53600), the first and last 64, and every 251st cycle in between
+    {
         let first_cycle = (i32::MIN as i64).div_euclid(400) - 1;
         let last_cycle = (i32::MAX as i64).div_euclid(400) + 1;
         let n_cycles = (last_cycle - first_cycle + 1) as u64;
-        let probes: [i64; 14] = [0, 1, 36523, 36524, 73047, 73048, 109571, 109572, 146096, 146095, 305, 306, 1460, 1461];
-        let chunk = 1024u64;
-        run_cases(ctx, &mut rep, 6, (n_cycles + chunk - 1) / chunk, |l, _rng, i| {
-            let mut cnt = 0;
-            for k in 0..chunk {
-                let cyc = first_cycle + (i * chunk + k) as i64;
-                if cyc > last_cycle {
-                    break;
+        let stride: u64 = if ctx.quick() { 251 } else { 1 };
+        let near: i64 = 128;
+        let n_strided = (n_cycles + stride - 1) / stride;
+        let n_extra: u64 = if ctx.quick() { (2 * near + 1) as u64 + 128 } else { 0 };
+        let cycle_at = |j: u64| -> Option<i64> {
+            if j < n_strided {
+                Some(first_cycle + (j * stride) as i64)
+            } else {
+                let e = (j - n_strided) as i64;
+                if e >= n_extra as i64 {
+                    None
+                } else if e <= 2 * near {
+                    Some(5 - near + e)
+                } else if e - 2 * near - 1 < 64 {
+                    Some(first_cycle + (e - 2 * near - 1))
+                } else {
+                    Some(last_cycle - (e - 2 * near - 1 - 64))
                 }
+            }
+        };
+        let total = n_strided + n_extra;
+        let probes: [i64; 14] = [0, 1, 36523, 36524, 73047, 73048, 109571, 109572, 146096, 146095, 305, 306, 1460, 1461];
+        let chunk = if ctx.quick() { 64u64 } else { 1024u64 };
+        run_cases(ctx, &mut rep, 6, (total + chunk - 1) / chunk, |l, _rng, i| {
+            let mut cnt = 0;
+            let mut cycles = 0;
+            for k in 0..chunk {
+                let cyc = match cycle_at(i * chunk + k) {
+                    Some(c) if c <= last_cycle => c,
+                    _ => continue,
+                };
+                cycles += 1;
                 let base = cal::days_from_civil(cyc * 400, 3, 1);
                 for p in probes {
                     for sod in [0i64, 86399] {
@@ -279,8 +305,10 @@ pub fn run(ctx: &Ctx) -> Report {
                 }
             }
             l.op_n("from_timespec", cnt);
-            l.class_n("cycles_of_400_years_probed", chunk);
+            l.class_n("cycles_of_400_years_probed", cycles);
         });
+    }
+    if !ctx.quick() {
         // wl 7: all days of long year ranges
         let ranges: [(i64, i64); 3] = [(-800, 2800), (i32::MIN as i64, i32::MIN as i64 + 800), (i32::MAX as i64 - 800, i32::MAX as i64)];
         for (ri, (y0, y1)) in ranges.iter().enumerate() {
